@@ -97,6 +97,11 @@ fn call(cx: &mut Ctx, f: impl FnOnce() -> R) -> Option<ArrayRef> {
     }
 }
 
+/// a random array of the type of a pipeline value (None where vcore::mk cannot make one)
+fn gen_array(rng: &mut Rng, dt: &DataType, n: usize, null_pct: usize) -> Option<ArrayRef> {
+    guarded(|| mk::array(rng, dt, n, Cfg::wild(null_pct))).ok()
+}
+
 fn rand_mask(rng: &mut Rng, n: usize) -> BooleanArray {
     let v: Vec<Option<bool>> = (0..n).map(|_| if rng.chance(10) { None } else { Some(rng.chance(50)) }).collect();
     BooleanArray::from(v)
@@ -315,9 +320,12 @@ fn step(cx: &mut Ctx, rng: &mut Rng, a: &ArrayRef, stage: usize) -> Vec<(String,
         }
         4 => {
             let k = rng.below(6);
-            let b = mk::array(rng, &dt, k, Cfg::wild(30));
             let compatible = !matches!(dt, DataType::Dictionary(_, _) | DataType::RunEndEncoded(_, _) | DataType::Union(_, _));
-            let other: ArrayRef = if compatible { b } else { a.slice(0, n / 2) };
+            // (the generator cannot make every type a builder can return, e.g. a union without variants)
+            let other: ArrayRef = match (compatible, gen_array(rng, &dt, k, 30)) {
+                (true, Some(b)) => b,
+                _ => a.slice(0, n / 2),
+            };
             push("concat".into(), call(cx, || arrow_select::concat::concat(&[a.as_ref(), other.as_ref(), a.as_ref()])));
         }
         5 => {
@@ -331,7 +339,7 @@ fn step(cx: &mut Ctx, rng: &mut Rng, a: &ArrayRef, stage: usize) -> Vec<(String,
         }
         6 => {
             let m = rand_mask(rng, n);
-            let b = if rng.chance(50) { a.clone() } else { mk::array(rng, &dt, n, Cfg::wild(50)) };
+            let b = if rng.chance(50) { a.clone() } else { gen_array(rng, &dt, n, 50).filter(|b| b.len() == n).unwrap_or_else(|| a.clone()) };
             push("zip".into(), call(cx, || arrow_select::zip::zip(&m, a, &b)));
         }
         7 => {
